@@ -500,27 +500,69 @@ def c08(ctx):
 # C09
 # --------------------------------------------------------------------------
 
+BACKUP_ADT = "libxcp::config::Backup"
+
+
 def backup_rename(fx):
-    """(a),(d) on the workers' inlined views: the rename of the old destination is control-dependent on the backup
-    decision, its target is the computed backup name of the very path being renamed, it precedes the truncating
-    open whenever a backup is needed, and nothing else (copy, remove) touches the old file."""
-    import views
+    """(a),(d) on the workers' inlined views (the backup decision and name computation inlined, whatever functions
+    they live in), once per assumed value of Config.backup -- edges contradicting the assumption removed:
+      none      no rename of the destination is reachable;
+      numbered  a rename is reachable, and only through a true outcome of an existence test of the destination;
+      auto      additionally only after the directory has been scanned for earlier backups;
+    and in every mode: the rename never follows the (re)creation of the destination, its target is computed from
+    the renamed path by the backup-name logic, and nothing else (copy, remove) touches the old file."""
+    import views, p_kinds
     obs = []
-    NB = views.backup_mode_fn(fx)
-    if NB is None:
-        return [anchor_ob("R-ORDER", "a function that branches on config.backup")]
+    variants = [v["name"] for v in fx.adts.get(BACKUP_ADT, {}).get("variants", [])]
+    if sorted(variants) != ["Auto", "None", "Numbered"]:
+        obs.append(anchor_ob("R-TABLE", "Backup variants None/Auto/Numbered (found %s)" % variants))
     n = 0
     for lab, f in views.workers(fx):
         rn = q.calls_to(f, RENAME)
         if not rn:
             continue
         cfg = cfg_of(f)
+        fv, regs = p_kinds.op_regions(fx, f)
+        sw = p_kinds.type_variant_switches(f, OPERATION)
+        entries = [m["Copy"] for sb_, m in sw if "Copy" in m]
+        barriers = [sb_ for sb_, m_ in sw]
+        if not entries:
+            obs.append(anchor_ob("R-ORDER", "%s: Copy arm" % lab))
+            continue
         creates = [b for b, t in q.calls_to(f, {FILE_CREATE, "std::fs::OpenOptions::open"})]
+        scans = [b for b, t, h in ro.performers(fx, f, {"std::path::Path::read_dir", "std::fs::read_dir"})]
+        rblocks = [bi for bi, t in rn]
+        tests = 0
+        for mode in ("None", "Numbered", "Auto"):
+            be, nt = p_kinds.assume_mode(f, CONFIG, "backup", mode, variants)
+            tests += nt
+            r = cfg.reach(entries, blocked=barriers, blocked_edges=be)
+            reach_rn = [b for b in rblocks if b in r]
+            if mode == "None":
+                ok = not reach_rn
+                obs.append(Ob("R-ORDER", mkkey("R-ORDER", lab, RENAME, 0, "mode:None"), ok, q.loc_of(rn[0][1]), lab,
+                              "with backup=none the destination is never renamed away: %s" % ok,
+                              None if ok else dict(rename_blocks=reach_rn)))
+                continue
+            okr = bool(reach_rn)
+            # existence predicates (on the destination) inside the arm, under this mode
+            preds = [(sb, prims, tt, ft) for (sb, prims, tt, ft) in _exists_predicates(fx, f, r)]
+            true_edges = [(sb, tt) for (sb, prims, tt, ft) in preds]
+            r2 = cfg.reach(entries, blocked=barriers, blocked_edges=be + true_edges)
+            oke = bool(preds) and not any(b in r2 for b in rblocks)
+            oks = True
+            if mode == "Auto":
+                r3 = cfg.reach(entries, blocked=set(barriers) | set(scans), blocked_edges=be)
+                oks = bool(scans) and not any(b in r3 for b in rblocks)
+            ok = okr and oke and oks
+            obs.append(Ob("R-TABLE", mkkey("R-TABLE", lab, RENAME, 0, "mode:" + mode), ok, q.loc_of(rn[0][1]), lab,
+                          "with backup=%s the rename is reachable (%s), only when the destination exists (%s)%s" % (
+                              mode.lower(), okr, oke, "" if mode != "Auto" else ", only after scanning for earlier backups (%s)" % oks),
+                          None if ok else dict(mode=mode, predicates=[sb for sb, _p, _t, _f in preds], scans=scans)))
+        if tests == 0:
+            obs.append(anchor_ob("R-ORDER", "%s tests Config.backup" % lab))
         for (bi, t) in rn:
             n += 1
-            ok, why = q.gated(f, bi, "call", NB, True)
-            obs.append(Ob("R-ORDER", mkkey("R-ORDER", lab, RENAME, 0, "gated:needs_backup"), ok, q.loc_of(t), lab,
-                          "backup rename: %s" % why.replace("call." + NB, "the backup decision"), None if ok else dict(block="bb%d" % bi)))
             # the new name is computed from the path that is renamed, by the backup-name logic
             c1, a1, f1 = q.arg_origin_calls(f, t, 1, table=BACKUP_FLOW)
             c0, a0, f0 = q.arg_origin_calls(f, t, 0, table=BACKUP_FLOW)
@@ -531,16 +573,12 @@ def backup_rename(fx):
             obs.append(Ob("R-TABLE", mkkey("R-TABLE", lab, RENAME, 0, "backup-name"), okn, q.loc_of(t), lab,
                           "rename target is computed from the renamed path by the backup-name logic: %s" % sorted(x.split("::")[-1] for x in c1),
                           None if okn else dict(target_from=sorted(c1), renamed_from=sorted(map(str, src0)))))
-            import p_kinds
-            barriers = [sb_ for sb_, m_ in p_kinds.type_variant_switches(f, OPERATION)]
-            for (u, v) in ro.edge_target(f, "call", NB, True):
-                okp = cfg.passes_through([bi], v, creates, barriers=barriers) and bool(creates) and \
-                    all(cfg.dominates(u, c) for c in creates)
-                obs.append(Ob("R-ORDER", mkkey("R-ORDER", lab, RENAME, 0, "before-create"), okp, q.loc_of(t), lab,
-                              "when a backup is needed the old file is renamed before the destination is (re)created: %s" % okp,
-                              None if okp else dict(rename="bb%d" % bi, creates=creates)))
-            import p_kinds
-            fv, regs = p_kinds.op_regions(fx, f)
+            # never create-then-rename within one operation
+            after = [c for c in creates if bi in cfg.reach([c], blocked=barriers) and c != bi]
+            okp = bool(creates) and not after
+            obs.append(Ob("R-ORDER", mkkey("R-ORDER", lab, RENAME, 0, "before-create"), okp, q.loc_of(t), lab,
+                          "the old file is renamed away before the destination is (re)created, never after: %s" % okp,
+                          None if okp else dict(rename="bb%d" % bi, creates_before_it=after)))
             bad = [(b_, t_) for b_, t_ in q.calls_to(f, {REMOVE_FILE, "std::fs::copy", "std::fs::write"}) if b_ in regs.get("Copy", ())]
             obs.append(Ob("R-WHO", mkkey("R-WHO", lab, "rename-only", 0), not bad, q.loc_of(t), lab,
                           "old destination preserved by atomic rename only (no copy+delete): %s" % (not bad),
@@ -587,33 +625,8 @@ BACKUP_FLOW = {
 
 
 def backup_decision_table(fx):
-    """(d) needs_backup: None -> no probe, never a backup; Auto -> existence && has_backup; Numbered -> existence."""
-    obs = []
-    f = fx.fn("libxcp::backup::needs_backup")
-    if f is None:
-        return [anchor_ob("R-TABLE", "libxcp::backup::needs_backup")]
-    ve = variant_edges(f, CONFIG, "backup")
-    if not ve:
-        return [anchor_ob("R-TABLE", "needs_backup does not switch on config.backup")]
-    sb, m, other = ve[0]
-    cg = q.callgraph(fx)
-    want = {"None": (False, False), "Auto": (True, True), "Numbered": (True, False)}
-    for var, (need_exists, need_has) in want.items():
-        if var not in m:
-            obs.append(anchor_ob("R-TABLE", "Backup::%s arm" % var))
-            continue
-        region = edge_region(f, sb, m[var])
-        r = cg.reach(f.path, blocks=region)
-        has_exists = any(x in r for x in ("libxcp::paths::exists", "libxcp::paths::lexists",
-                                          "std::path::Path::symlink_metadata", "std::path::Path::metadata",
-                                          "std::path::Path::exists", "std::path::Path::try_exists"))
-        has_has = "libxcp::backup::has_backup" in r
-        ok = (has_exists == need_exists) and (has_has == need_has)
-        obs.append(Ob("R-TABLE", mkkey("R-TABLE", f.path, "Backup::" + var, 0, "arm"), ok, f.loc(), f.path,
-                      "Backup::%s arm probes existence=%s, scans for backups=%s (want %s/%s)" % (
-                          var, has_exists, has_has, need_exists, need_has),
-                      None if ok else dict(region=sorted(region))))
-    return obs
+    """(d) is decided by backup_rename's per-mode clauses."""
+    return []
 
 
 def c09(ctx):
@@ -623,7 +636,7 @@ def c09(ctx):
     ctx.add(backup_decision_table(fx))
     ctx.add(backup_numeric_order(fx))
     ctx.add([o for o in r_err.run(fx, crates=("libxcp",)) if o.fn.startswith("libxcp::backup::")
-             or (o.fn == NEW and ("rename" in o.key or "backup" in o.key))])
+             or "rename" in o.key or "backup" in o.key or "read_dir" in o.key])
 
 
 # --------------------------------------------------------------------------
